@@ -40,15 +40,18 @@ def _scratch(repo, workdir, names):
     return dst, unique
 
 
-def _run_one(crate, name, only=None, timeout=1500, stride=1):
-    env = dict(os.environ)
-    env['CARGO_NET_OFFLINE'] = 'true'
-    env['CARGO_TARGET_DIR'] = scratchcrate.target_dir()
-    env['VERIF_GRID_ONLY'] = only or ''
-    env['VERIF_GRID_STRIDE'] = str(stride)
-    p = subprocess.run(['cargo', 'test', '--offline', '--test', 'verif_grid_%s' % name, '--', '--nocapture', '--test-threads=1'],
-                       cwd=crate, env=env, stdout=subprocess.PIPE, stderr=subprocess.STDOUT, text=True, timeout=timeout)
-    out = p.stdout
+def _run_one(crate, name, only=None, timeout=1500, stride=1, unique=''):
+    exe, files, log = scratchcrate.build_test(crate, unique, ['--test', 'verif_grid_%s' % name], timeout=timeout)
+    try:
+        if not exe:
+            return 'error: build of the grid failed\n' + log, [], None
+        env = dict(os.environ)
+        env['VERIF_GRID_ONLY'] = only or ''
+        env['VERIF_GRID_STRIDE'] = str(stride)
+        p = subprocess.run([exe, '--nocapture', '--test-threads=1'], cwd=crate, env=env, stdout=subprocess.PIPE, stderr=subprocess.STDOUT, text=True, timeout=timeout)
+        out = p.stdout
+    finally:
+        scratchcrate.cleanup_files(files)
     fails = []
     for m in re.finditer(r'^GRID-FAIL grid=(\S+) case=(\S+) :: (.*)$', out, re.M):
         fails.append({'grid': m.group(1), 'case': m.group(2), 'what': m.group(3)[:1500]})
@@ -64,7 +67,7 @@ def run(pid, gspec, repo, workdir, stride=1):
     try:
         for n in names:
             try:
-                out, fails, done = _run_one(crate, n, stride=stride)
+                out, fails, done = _run_one(crate, n, stride=stride, unique=unique)
             except subprocess.TimeoutExpired:
                 raise Undecided('grid %s: wall-clock cap exceeded' % n)
             if not done:
@@ -95,7 +98,7 @@ def replay(rep, repo):
     unique = None
     try:
         crate, unique = _scratch(repo, wd, [fi['grid']])
-        out, fails, done = _run_one(crate, fi['grid'], only=fi['case'])
+        out, fails, done = _run_one(crate, fi['grid'], only=fi['case'], unique=unique)
     finally:
         shutil.rmtree(wd, ignore_errors=True)
         if unique:
